@@ -120,18 +120,18 @@ def finish(pid, tier, seed, results, t0, explanation, trusted=None):
             print('      note:', n)
     for r, f, txt in known:
         print(f'KNOWN-FINDING: property={pid} {r.oid} key={f["key"]} {f["what"]}')
-    if brokenl:
-        for r in brokenl:
-            print(f'BROKEN-CHECK property={pid} obligation={r.oid}: {"; ".join(r.notes)}')
-        return 2
     unconfirmed = [(r, f) for r, f in viol if not f.get('confirmed', True)]
     confirmed = [(r, f) for r, f in viol if f.get('confirmed', True)]
+    for r in brokenl:
+        print(f'BROKEN-CHECK property={pid} obligation={r.oid}: {"; ".join(r.notes)[:600]}')
     for r, f in confirmed:
         rp = f.get('replay') or write_replay(pid, r, f)
         print(f'VIOLATION property={pid} replay={rp}')
         print(f'      obligation={r.oid} key={f["key"]} {f["what"]}')
     if confirmed:
-        return 1
+        return 1          # a counterexample stands on its own witness even if another part of the check is inconclusive
+    if brokenl:
+        return 2
     if unconfirmed:
         for r, f in unconfirmed:
             print(f'UNCONFIRMED-COUNTEREXAMPLE property={pid} obligation={r.oid} key={f["key"]} {f["what"]}')
